@@ -27,6 +27,7 @@ import (
 	"github.com/regclient/regclient/pkg/archive"
 	"github.com/regclient/regclient/scheme/reg"
 	"github.com/regclient/regclient/types/descriptor"
+	"github.com/regclient/regclient/types/platform"
 	"github.com/regclient/regclient/types/ref"
 )
 
@@ -42,20 +43,40 @@ func init() {
 var c20Evil = []string{"../evil", "../../evil", "/abs/evil", "a/../../evil", "..", ".", "", "a/b/../../../evil", "evil\x00name", strings.Repeat("L", 300), "dir/", "dir/../../evil/", "existing.txt",
 	"..\\evil", "C:\\evil", "./../evil", "a/./../../evil", "//double//evil", "a/../../../../../../../../tmp/verif-c20-escape", "normal.txt", "sub/dir/file.txt", "...", "..../evil", " ../evil", "../evil "}
 
+// names and link targets out of which chains can form: each link looks harmless by its text (it names something
+// inside the directory), the escape only exists once an earlier link is followed
+var c20ChainNames = []string{"a", "b", "c", "d/l", "b/escaped.txt", "c/escaped.txt", "a/b/escaped.txt", "d/l/escaped.txt", "c/sentinel.txt", "b/sibling/evil"}
+var c20ChainLinks = []string{".", "a/..", "b/..", "a", "b", "..", "../a/..", "d/..", "c/.."}
+
 func c20Tar(e *core.Env, gz bool) ([]byte, []string) {
 	var buf bytes.Buffer
 	tw := tar.NewWriter(&buf)
 	var names []string
+	chains := e.Choose("gen", 3, "chains") == 2
 	for i, n := 0, 1+e.Choose("gen", 5, "nent"); i < n; i++ {
 		name := c20Evil[e.Choose("gen", len(c20Evil), "tarname")]
+		link := c20Evil[e.Choose("gen", len(c20Evil), "link")]
+		typ := e.Choose("gen", 6, "enttype")
+		if chains {
+			// links first, files through them afterwards
+			name = c20ChainNames[e.Choose("gen", len(c20ChainNames), "chainname")]
+			link = c20ChainLinks[e.Choose("gen", len(c20ChainLinks), "chainlink")]
+			if i < n-1 && i < 3 {
+				typ = 1 + e.Choose("gen", 2, "chaintype")
+			} else {
+				typ = 3
+			}
+		}
 		names = append(names, name)
-		switch e.Choose("gen", 6, "enttype") {
+		switch typ {
 		case 0:
 			_ = tw.WriteHeader(&tar.Header{Name: name, Typeflag: tar.TypeDir, Mode: 0o755})
 		case 1:
-			_ = tw.WriteHeader(&tar.Header{Name: name, Typeflag: tar.TypeSymlink, Linkname: c20Evil[e.Choose("gen", len(c20Evil), "link")], Mode: 0o777})
+			names[len(names)-1] = name + "->" + link
+			_ = tw.WriteHeader(&tar.Header{Name: name, Typeflag: tar.TypeSymlink, Linkname: link, Mode: 0o777})
 		case 2:
-			_ = tw.WriteHeader(&tar.Header{Name: name, Typeflag: tar.TypeLink, Linkname: c20Evil[e.Choose("gen", len(c20Evil), "link")], Mode: 0o644})
+			names[len(names)-1] = name + "=>" + link
+			_ = tw.WriteHeader(&tar.Header{Name: name, Typeflag: tar.TypeLink, Linkname: link, Mode: 0o644})
 		default:
 			data := []byte("content of " + fmt.Sprint(i))
 			_ = tw.WriteHeader(&tar.Header{Name: name, Typeflag: tar.TypeReg, Size: int64(len(data)), Mode: 0o644})
@@ -220,6 +241,13 @@ func runC20(e *core.Env) {
 		_ = json.Unmarshal(ib, &ix)
 		ms := ix["manifests"].([]any)
 		ms = append(ms, map[string]any{"mediaType": img.MediaType, "digest": evil, "size": 10, "annotations": map[string]string{"org.opencontainers.image.ref.name": "evil"}})
+		// and an index (tag evilindex) one of whose children carries the same digest
+		evilIx, _ := json.Marshal(map[string]any{"schemaVersion": 2, "mediaType": gen.MTOCIIndex, "manifests": []any{
+			map[string]any{"mediaType": img.MediaType, "digest": evil, "size": 10, "platform": map[string]string{"os": "linux", "architecture": "amd64"}},
+			map[string]any{"mediaType": img.MediaType, "digest": img.Digest, "size": len(img.Raw), "platform": map[string]string{"os": "linux", "architecture": "arm64"}}}})
+		evilIxD := regmodel.Digest("sha256", evilIx)
+		_ = gen.LayoutFile(out, evilIxD, evilIx)
+		ms = append(ms, map[string]any{"mediaType": gen.MTOCIIndex, "digest": evilIxD, "size": len(evilIx), "annotations": map[string]string{"org.opencontainers.image.ref.name": "evilindex"}})
 		ix["manifests"] = ms
 		nb, _ := json.Marshal(ix)
 		_ = os.WriteFile(filepath.Join(out, "index.json"), nb, 0o644)
@@ -246,6 +274,33 @@ func runC20(e *core.Env) {
 			},
 			func() error { return rc.BlobDelete(ctx, mustRef("ocidir://"+out), descriptor.Descriptor{Digest: digest.Digest(evil)}) },
 			func() error { return rc.ManifestDelete(ctx, mustRef("ocidir://"+out+"@"+evil)) },
+			// references whose digest was set from content (a child descriptor, a subject, a listing)
+			func() error { _, err := rc.ManifestHead(ctx, mustRef("ocidir://"+out).SetDigest(evil)); return err },
+			func() error { _, err := rc.ManifestGet(ctx, mustRef("ocidir://"+out).SetDigest(evil)); return err },
+			func() error { return rc.ManifestDelete(ctx, mustRef("ocidir://"+out).SetDigest(evil)) },
+			func() error {
+				m, err := rc.ManifestGet(ctx, mustRef("ocidir://"+out+":good"))
+				if err != nil {
+					return err
+				}
+				return rc.ManifestDelete(ctx, mustRef("ocidir://"+out).SetDigest(evil), regclient.WithManifest(m))
+			},
+			func() error {
+				m, err := rc.ManifestGet(ctx, mustRef("ocidir://"+out+":good"))
+				if err != nil {
+					return err
+				}
+				return rc.ManifestPut(ctx, mustRef("ocidir://"+out).SetDigest(evil), m)
+			},
+			func() error {
+				_, err := rc.ManifestGet(ctx, mustRef("ocidir://"+out+":evilindex"), regclient.WithManifestPlatform(platform.Platform{OS: "linux", Architecture: "amd64"}))
+				return err
+			},
+			func() error { return rc.ImageCopy(ctx, mustRef("ocidir://"+out+":evilindex"), mustRef("ocidir://"+other+":copyix")) },
+			func() error { return rc.ImageCopy(ctx, mustRef("ocidir://"+out+":evilindex"), mustRef("ocidir://"+out+":ix2")) },
+			func() error { _, err := rc.ReferrerList(ctx, mustRef("ocidir://"+out).SetDigest(evil)); return err },
+			func() error { return rc.TagDelete(ctx, mustRef("ocidir://"+out+":evilindex")) },
+			func() error { return rc.Close(ctx, mustRef("ocidir://"+out)) },
 		}
 		for i, n := 0, 2+e.Choose("gen", 5, "nops"); i < n; i++ {
 			k := e.Choose("gen", len(ops), "op")
@@ -274,6 +329,19 @@ func runC20(e *core.Env) {
 		rg.Repo("proj/app").Blobs[evil] = []byte("payload for the path-like digest")
 		sample["evil_layer_digest"] = evil
 		rc := regclient.New()
+		if e.Choose("gen", 2, "viaindex") == 1 {
+			// the same digest as a child manifest of an index, copied into a layout that already holds an image
+			_ = gr.InstallLayout(out, "present", false)
+			before = listTree(guard)
+			evilIx, _ := json.Marshal(map[string]any{"schemaVersion": 2, "mediaType": gen.MTOCIIndex, "manifests": []any{
+				map[string]any{"mediaType": img.MediaType, "digest": evil, "size": 32, "platform": map[string]string{"os": "linux", "architecture": "amd64"}},
+				map[string]any{"mediaType": img.MediaType, "digest": img.Digest, "size": len(img.Raw), "platform": map[string]string{"os": "linux", "architecture": "arm64"}}}})
+			rg.PutManifest("proj/app", gen.MTOCIIndex, evilIx, "evilindex")
+			rg.Repo("proj/app").Manifests[evil] = &regmodel.Manifest{MediaType: img.MediaType, Raw: []byte("payload for the path-like digest")}
+			sample["as_index_child"] = true
+			opErr = rc.ImageCopy(ctx, mustRef("reg.test/proj/app:evilindex"), mustRef("ocidir://"+out+":copiedix"))
+			break
+		}
 		opErr = rc.ImageCopy(ctx, mustRef("reg.test/proj/app:evil"), mustRef("ocidir://"+out+":copied"))
 	}
 	simos.Use(nil)
@@ -310,6 +378,31 @@ func runC20(e *core.Env) {
 	}
 	if muts > 0 {
 		e.Probe("writes-audited")
+	}
+	// a layout reference only reads inside its own directory, and unpacking reads nothing outside the chosen one
+	// (the configuration file named by REGCTL_CONFIG is the one legitimate read elsewhere)
+	reads := 0
+	for _, en := range disk.Log {
+		if en.Mut > 0 || en.Abs == "" {
+			continue
+		}
+		reads++
+		p := en.Abs
+		ok := p == cfgFile || p == guard
+		for _, a := range allowed {
+			if p == a || strings.HasPrefix(p, a+"/") {
+				ok = true
+			}
+		}
+		if !ok && strings.HasPrefix(p, tmp+"/") && !strings.HasPrefix(p, guard) {
+			ok = true
+		}
+		if !ok {
+			e.Violation("escape", "read-outside:"+mode+":"+en.Op, "%s issued %s on %s, outside the designated directory %s (%v)", mode, en.Op, p, out, sample)
+		}
+	}
+	if reads > 0 {
+		e.Probe("reads-audited")
 	}
 	// and the enclosing guard directory is unchanged outside it
 	after := listTree(guard)
